@@ -29,10 +29,29 @@
 (*                    fails: the job has left the table, it is neither withdrawn nor finished),     *)
 (*                    the late reschedule, the start of the next slot's job, the clock, probes.     *)
 (*   Probe            HasPendingAttestations is consulted (a shutdown was requested): no change     *)
-(*   SyncMsg(s, ok)   messenger Message: head root noted for aggregation, slot data recorded        *)
+(*   MsgStart(s)      the sync committee message job of slot s starts: messenger Message asks the   *)
+(*                    node for its head root                                                        *)
+(*   MsgEnd(s)        the node answers: head root noted for aggregation (SetBeaconBlockRoot(s)),    *)
+(*                    slot data recorded (slotDataRecords[s]), messages signed and sent             *)
+(*                    Sync committee message jobs have DURATION and complete OUT OF ORDER: the      *)
+(*                    scheduler runs one Message() per slot in its own goroutine on the ONE         *)
+(*                    messenger / aggregator pair, a call returns when the node answers - the       *)
+(*                    request of slot N may be answered after those of later slots (up to several   *)
+(*                    epochs late), two neighbouring slots in reverse order.  msgrun = the slots    *)
+(*                    whose request is with the node.                                               *)
+(*   SyncMsg(s, ok)   MsgStart and MsgEnd at once                                                   *)
 (*   SyncAgg(s)       aggregator Aggregate (only when a validator is an aggregator): root consumed  *)
-(*   Auction(s)       block relay AuctionBlock: winning (or dummy) bid cached                       *)
+(*   AucStart(s) / AucEnd(s)  block relay AuctionBlock: the auction is with the relays / winning    *)
+(*                    (or dummy) bid cached; Auction(s) = both at once.  aucrun likewise.           *)
+(*   SubEnd(e)        the beacon committee subscription of epoch e that a Prepare step started and  *)
+(*                    the node kept back completes: subscriptionInfos[e] is set.  subrun likewise.  *)
 (*   Advance          the clock                                                                     *)
+(*                                                                                                 *)
+(* The INSTANCE is long-lived: one behaviour = the whole life of one controller / attester /        *)
+(* messenger / aggregator / block relay set; everything the services carry from call to call is in  *)
+(* the maps below (their domains), and the bound invariants are judged in EVERY state - also while  *)
+(* calls of several slots are under way and after they have completed in any order.  No action's    *)
+(* envelope (Allowed) depends on the order in which earlier calls completed.                        *)
 (*                                                                                                 *)
 (* Every action takes the post-state q of the bookkeeping as a parameter and only says what ANY     *)
 (* implementation may do (Allowed): an entry appears only for the key the action is about, a job    *)
@@ -41,8 +60,11 @@
 (* housekeeping design ("design": window pruning, mark cleared with the withdrawn job - the         *)
 (* repaired code; "pinned": the code as found; "clearall": the refresh clears the mark of EVERY     *)
 (* slot of the epoch, whether or not its CancelJob succeeded - a self-check: it must violate        *)
-(* PendingExact, and only in states with a running job); the exhaustive runs use it to choose q,    *)
-(* trace validation takes q from what the real services did.                                        *)
+(* PendingExact, and only in states with a running job; "sweep": head roots, builder bids and       *)
+(* subscription infos are pruned with a CARRIED LOW-WATER MARK that assumes entries arrive in key   *)
+(* order - a second self-check: right whenever calls complete in slot order, it must violate        *)
+(* RootsBounded / BidsBounded / SubsBounded once they do not); the exhaustive runs use it to choose *)
+(* q, trace validation takes q from what the real services did.                                     *)
 EXTENDS Integers, FiniteSets, Sequences, TLC
 
 CONSTANTS P,         \* slots per epoch
@@ -51,7 +73,7 @@ CONSTANTS P,         \* slots per epoch
                      \* at most G consecutive epochs in which attestations ran but none succeeded
           StartSlots,\* slots at which the service may be started
           MaxSlot,   \* last slot explored
-          Mode,      \* "design" | "pinned" | "clearall" (which concrete housekeeping Design(...) is)
+          Mode,      \* "design" | "pinned" | "clearall" | "sweep" (which concrete housekeeping Design(...) is)
           RecMax, RecKeep,      \* slotDataRecords clean-up thresholds of the code (100, 32)
           RootKeep, BidKeep,    \* windows (slots) of the design's prune-on-insert
           KRoots, KBids,        \* bounds (cardinalities) the property is checked with
@@ -59,15 +81,23 @@ CONSTANTS P,         \* slots per epoch
           Moods,                \* per-epoch environment: "quiet" (no head event), "plain" (head events, no
                                 \* reorg), "reorg" (head events that may refresh duties)
           MaxReorgs,            \* refreshing head events per epoch
+          MsgLates, AucLates,   \* how many slots after its own a head root request / an auction may be answered
+          SubLates, AttLates,   \* (0 = within its slot), likewise the subscription a Prepare step starts and
+                                \* (beyond "into the next slot of its epoch") an attestation job
+          MaxHeld,              \* at most MaxHeld requests of one kind kept back beyond their slot at a time
           Fams                  \* families explored: "att" (duties, marks, attester, subscriptions), "sync" (sync
                                 \* committee maps), "bids" (block relay), "all" (everything together; simulation)
 
 VARIABLES now, up, verify, aggmode,
           attjobs, prepjobs, running, pend, attested, subs, roots, records, bids, njobs,
+          msgrun,   \* slots whose sync committee message job is running (head root request with the node)
+          aucrun,   \* slots whose block auction is running (with the relays)
+          subrun,   \* epochs whose beacon committee subscription is under way (kept back by the node)
           env       \* scheduling scaffold of the exhaustive / simulated runs (not part of the bookkeeping)
 
 maps == <<attjobs, prepjobs, pend, attested, subs, roots, records, bids, njobs>>
-vars == <<now, up, verify, aggmode, running, maps, env>>
+calls == <<msgrun, aucrun, subrun>>       \* calls under way other than attestation jobs
+vars == <<now, up, verify, aggmode, running, calls, maps, env>>
 
 Epoch(s) == s \div P
 First(e) == e * P
@@ -76,8 +106,9 @@ SlotsOfAll(R) == UNION {SlotsOf(e) : e \in R}
 
 \* bounds of the property: a fixed window of recent slots / epochs
 KAtt == 4 + G                    \* previous, current epoch, one being noted, one slack + outage
-KSub == 4 + G                    \* previous, current, next epoch, one slack + outage
-KRecords == RecMax + RecKeep     \* 132 with the code's thresholds
+KSub == 4 + G + MaxHeld          \* previous, current, next epoch, one slack + outage + late arrivals
+KRecords == RecMax + RecKeep + MaxHeld   \* 132 with the code's thresholds, + late arrivals (an old slot's record
+                                         \* arrives below the clean-up's edge and stays until the next on-time one)
 KJobs == 2 * EP * P + 2 * P + 16 \* two sync periods of prepare jobs, two epochs of attestations, slack
 
 Q(a, pj, p, at, s, r, c, b, n) ==
@@ -115,32 +146,43 @@ Start(F, q) ==
     /\ up' = TRUE
     /\ Allowed(q, Future(F), {}, {}, {}, {}, F, {}, {}, {})
     /\ Apply(q)
-    /\ UNCHANGED <<now, verify, aggmode, running>>
+    /\ UNCHANGED <<now, verify, aggmode, running, calls>>
 
 Tick(q) ==
     /\ up
     /\ Allowed(q, {}, {}, {Epoch(now) + 1}, {}, {}, {}, {}, {}, {})
     /\ Apply(q)
-    /\ UNCHANGED <<now, up, verify, aggmode, running>>
+    /\ UNCHANGED <<now, up, verify, aggmode, running, calls>>
 
-\* fired = FALSE: there was no such job (nothing happens)
-Prepare(e, fired, F, q) ==
+\* fired = FALSE: there was no such job (nothing happens).  H = the epochs (of F) whose beacon committee
+\* subscription the node keeps back: their subscription info appears with SubEnd, not with this step.
+Prepare(e, fired, F, H, q) ==
     /\ up
     /\ fired <=> e \in prepjobs
     /\ IF fired
-         THEN /\ F \subseteq {e}
+         THEN /\ F \subseteq {e} /\ H \subseteq F
               /\ e \notin q.prepjobs
-              /\ Allowed(q, Future(F), {}, {}, {e}, {}, F, {}, {}, {})
-         ELSE Allowed(q, {}, {}, {}, {}, {}, {}, {}, {}, {})
+              /\ Allowed(q, Future(F), {}, {}, {e}, {}, F \ H, {}, {}, {})
+         ELSE H = {} /\ Allowed(q, {}, {}, {}, {}, {}, {}, {}, {}, {})
     /\ Apply(q)
-    /\ UNCHANGED <<now, up, verify, aggmode, running>>
+    /\ subrun' = subrun \cup H
+    /\ UNCHANGED <<now, up, verify, aggmode, running, msgrun, aucrun>>
+
+\* the node completes the subscription of epoch e: subscriptionInfos[e] is set - however late that is
+SubEnd(e, q) ==
+    /\ up
+    /\ e \in subrun
+    /\ subrun' = subrun \ {e}
+    /\ Allowed(q, {}, {}, {}, {}, {}, {e}, {}, {}, {})
+    /\ Apply(q)
+    /\ UNCHANGED <<now, up, verify, aggmode, running, msgrun, aucrun>>
 
 HeadEvent(F, q) ==
     /\ up
     /\ F \subseteq {Epoch(now), Epoch(now) + 1}
     /\ Allowed(q, Future(F), SlotsOfAll(F), {}, {}, {}, F, {}, {}, {})
     /\ Apply(q)
-    /\ UNCHANGED <<now, up, verify, aggmode, running>>
+    /\ UNCHANGED <<now, up, verify, aggmode, running, calls>>
 
 \* The node answered the refresh's duty request late: HeadEvent(F) was the cancel half (the jobs of F
 \* withdrawn, the request made), this is the reschedule half for the epochs E.
@@ -148,14 +190,14 @@ Resched(E, q) ==
     /\ up
     /\ Allowed(q, Future(E), {}, {}, {}, {}, E, {}, {}, {})
     /\ Apply(q)
-    /\ UNCHANGED <<now, up, verify, aggmode, running>>
+    /\ UNCHANGED <<now, up, verify, aggmode, running, calls>>
 
 \* HasPendingAttestations is consulted (main.go does on SIGTERM): nothing may appear
 Probe(q) ==
     /\ up
     /\ Allowed(q, {}, {}, {}, {}, {}, {}, {}, {}, {})
     /\ Apply(q)
-    /\ UNCHANGED <<now, up, verify, aggmode, running>>
+    /\ UNCHANGED <<now, up, verify, aggmode, running, calls>>
 
 AttStart(s, q) ==
     /\ up
@@ -164,7 +206,7 @@ AttStart(s, q) ==
     /\ running' = running \cup {s}
     /\ Allowed(q, {}, {s}, {}, {}, {Epoch(s)}, {}, {}, {}, {})
     /\ Apply(q)
-    /\ UNCHANGED <<now, up, verify, aggmode>>
+    /\ UNCHANGED <<now, up, verify, aggmode, calls>>
 
 AttEnd(s, q) ==
     /\ up
@@ -172,7 +214,7 @@ AttEnd(s, q) ==
     /\ running' = running \ {s}
     /\ Allowed(q, {}, {}, {}, {}, {Epoch(s)}, {}, {}, {}, {})
     /\ Apply(q)
-    /\ UNCHANGED <<now, up, verify, aggmode>>
+    /\ UNCHANGED <<now, up, verify, aggmode, calls>>
 
 \* the whole job at once (when the driver could not stop it at the node)
 AttWhole(s, q) ==
@@ -181,32 +223,68 @@ AttWhole(s, q) ==
     /\ s \notin q.attjobs
     /\ Allowed(q, {}, {s}, {}, {}, {Epoch(s)}, {}, {}, {}, {})
     /\ Apply(q)
-    /\ UNCHANGED <<now, up, verify, aggmode, running>>
+    /\ UNCHANGED <<now, up, verify, aggmode, running, calls>>
 
+\* The sync committee message job of slot s: Message() asks the node for its head root (MsgStart), and when
+\* the node answers (MsgEnd) notes the root for the aggregation of slot s and records the slot data.  Between
+\* the two anything may happen, in particular MsgStart / MsgEnd of OTHER slots: the calls of several slots are
+\* under way on the one messenger / aggregator pair and complete in the order the node answers.
+MsgStart(s, q) ==
+    /\ up
+    /\ s \notin msgrun
+    /\ msgrun' = msgrun \cup {s}
+    /\ Allowed(q, {}, {}, {}, {}, {}, {}, {}, {}, {})
+    /\ Apply(q)
+    /\ UNCHANGED <<now, up, verify, aggmode, running, aucrun, subrun>>
+
+MsgEnd(s, q) ==
+    /\ up
+    /\ s \in msgrun
+    /\ msgrun' = msgrun \ {s}
+    /\ Allowed(q, {}, {}, {}, {}, {}, {}, {s}, {s}, {})
+    /\ Apply(q)
+    /\ UNCHANGED <<now, up, verify, aggmode, running, aucrun, subrun>>
+
+\* the whole job at once (the node answered before anything else happened; or there was no such job)
 SyncMsg(s, fired, q) ==
     /\ up
     /\ IF fired
          THEN Allowed(q, {}, {}, {}, {}, {}, {}, {s}, {s}, {})
          ELSE Allowed(q, {}, {}, {}, {}, {}, {}, {}, {}, {})
     /\ Apply(q)
-    /\ UNCHANGED <<now, up, verify, aggmode, running>>
+    /\ UNCHANGED <<now, up, verify, aggmode, running, calls>>
 
 SyncAgg(s, q) ==
     /\ up
     /\ Allowed(q, {}, {}, {}, {}, {}, {}, {}, {}, {})
     /\ Apply(q)
-    /\ UNCHANGED <<now, up, verify, aggmode, running>>
+    /\ UNCHANGED <<now, up, verify, aggmode, running, calls>>
+
+\* AuctionBlock(s): the auction is with the relays (AucStart) / the result is cached (AucEnd)
+AucStart(s, q) ==
+    /\ s \notin aucrun
+    /\ aucrun' = aucrun \cup {s}
+    /\ Allowed(q, {}, {}, {}, {}, {}, {}, {}, {}, {})
+    /\ Apply(q)
+    /\ UNCHANGED <<now, up, verify, aggmode, running, msgrun, subrun>>
+
+AucEnd(s, q) ==
+    /\ s \in aucrun
+    /\ aucrun' = aucrun \ {s}
+    /\ Allowed(q, {}, {}, {}, {}, {}, {}, {}, {}, {s})
+    /\ Apply(q)
+    /\ UNCHANGED <<now, up, verify, aggmode, running, msgrun, subrun>>
 
 Auction(s, q) ==
     /\ Allowed(q, {}, {}, {}, {}, {}, {}, {}, {}, {s})
     /\ Apply(q)
-    /\ UNCHANGED <<now, up, verify, aggmode, running>>
+    /\ UNCHANGED <<now, up, verify, aggmode, running, calls>>
 
 Advance(q) ==
     /\ now' = now + 1
     /\ Allowed(q, {}, {}, {}, {}, {}, {}, {}, {}, {})
     /\ Apply(q)
-    /\ UNCHANGED <<up, verify, aggmode, running>>
+    /\ UNCHANGED <<up, verify, aggmode, running, calls>>
 
 -----------------------------------------------------------------------------
 (* The property.                                                                                    *)
@@ -214,10 +292,14 @@ Advance(q) ==
 TypeOK ==
     /\ now \in Nat /\ up \in BOOLEAN /\ verify \in BOOLEAN
     /\ njobs \in Nat
-    /\ running \subseteq Nat
+    /\ running \subseteq Nat /\ msgrun \subseteq Nat /\ aucrun \subseteq Nat /\ subrun \subseteq Nat
 
 \* C20: "the bookkeeping Vouch keeps per slot, epoch or job ... do[es] not grow beyond what a fixed
-\* window of recent slots needs"
+\* window of recent slots needs".  Invariants of EVERY state: also of those in which calls of several slots
+\* are under way, and of those after a call for an OLD slot has completed late (its entry arrives below
+\* everything a window of recent slots holds; it may stay until the housekeeping next runs, it must not stay
+\* for the life of the process: with late answers now and again the count would grow without bound).
+\* The constants leave room for the entries of MaxHeld late answers on top of the window.
 AttestedBounded == Cardinality(attested) <= KAtt
 SubsBounded == Cardinality(subs) <= KSub
 RootsBounded == Cardinality(roots) <= KRoots
@@ -247,10 +329,27 @@ Keep(S, lo) == {x \in S : x >= lo}
 HkEpochs(S, e) ==                         \* attested (on a successful Attest), subscriptionInfos (on a head event)
     IF Mode = "pinned" THEN S \ {e - 2}   \* the code as found: exactly epoch - 2
     ELSE Keep(S, e - 1)                   \* everything older than the previous epoch
-HkRoots(S, s) == IF Mode = "pinned" THEN S ELSE Keep(S, s - RootKeep)
+\* "sweep": a low-water mark carried between calls (env.rmark / bmark / smark), reset to the key being set when
+\* the map is empty; only the keys between the mark and the window edge are deleted and the mark moves up -
+\* the same entries as Keep(...) go at the same calls AS LONG AS keys arrive in order; an entry that arrives
+\* below the mark is never looked at again.
+SweepLo(S, mark, k) == IF S = {} THEN k ELSE mark
+SweepMark(S, mark, k, keep) == IF SweepLo(S, mark, k) + keep < k THEN k - keep ELSE SweepLo(S, mark, k)
+Sweep(S, mark, k, keep) == {x \in S \cup {k} : ~(SweepLo(S, mark, k) <= x /\ x + keep < k)}
+HkRoots(S, s) ==
+    CASE Mode = "pinned" -> S \cup {s}
+      [] Mode = "sweep" -> Sweep(S, env.rmark, s, RootKeep)
+      [] OTHER -> Keep(S \cup {s}, s - RootKeep)        \* relative to the slot being SET (not to the clock)
 Clean(S, s) == IF Cardinality(S) > RecMax THEN Keep(S, s - RecKeep) ELSE S    \* RemoveHistoricDataUsedForSlotVerification
 HkRecords(S, s) == IF Mode = "pinned" THEN S ELSE Clean(S, s)
-HkBids(S, s) == IF Mode = "pinned" THEN S ELSE Keep(S, s - BidKeep)
+HkBids(S, s) ==
+    CASE Mode = "pinned" -> S \cup {s}
+      [] Mode = "sweep" -> Sweep(S, env.bmark, s, BidKeep)
+      [] OTHER -> Keep(S \cup {s}, s - BidKeep)
+\* head event in epoch e: subscription infos older than the previous epoch go
+HkSubs(S, e) ==
+    IF Mode = "sweep" THEN {x \in S : ~(env.smark <= x /\ x + 1 < e)}
+    ELSE HkEpochs(S, e)
 \* cancelled = the slots whose CancelJob succeeded, F = the refreshed epochs
 Unmark(p, cancelled, F) ==
     CASE Mode = "pinned" -> p
@@ -269,11 +368,11 @@ DTick ==
     LET pj == prepjobs \cup {Epoch(now) + 1}
     IN [Cur EXCEPT !.prepjobs = pj, !.njobs = Count(attjobs, pj)]
 
-DPrepare(e, d) ==
+DPrepare(e, d, hold) ==
     LET a == attjobs \cup {s \in d : s >= now}
         pj == prepjobs \ {e}
     IN [Cur EXCEPT !.attjobs = a, !.prepjobs = pj, !.pend = pend \cup (a \ attjobs),
-                   !.subs = subs \cup {e}, !.njobs = Count(a, pj)]
+                   !.subs = IF hold THEN subs ELSE subs \cup {e}, !.njobs = Count(a, pj)]
 
 \* refresh of the epochs in F (an epoch that is not prepared yet is left alone by the code): cancel each
 \* slot's job (succeeds exactly for the jobs in the table - not for a job that is running), fetch, set up
@@ -286,7 +385,7 @@ DHead(F, D, split) ==
         a == (attjobs \ cancelled) \cup added
     IN [Cur EXCEPT !.attjobs = a,
                    !.pend = Unmark(pend, cancelled, F) \cup added,
-                   !.subs = HkEpochs(subs \cup F, Epoch(now)),
+                   !.subs = HkSubs(subs \cup F, Epoch(now)),
                    !.records = IF verify THEN Clean(records, now) ELSE records,
                    !.njobs = Count(a, prepjobs)]
 
@@ -304,13 +403,16 @@ DAttEnd(s, ok) ==
     [Cur EXCEPT !.pend = pend \ {s},
                 !.attested = IF ok THEN HkEpochs(attested, Epoch(s)) ELSE attested]
 
-DSyncMsg(s, ok) ==
-    IF ok THEN [Cur EXCEPT !.roots = HkRoots(roots \cup {s}, s), !.records = HkRecords(records \cup {s}, s)]
+\* the node's answer to the head root request of slot s - which may be an old slot by now
+DMsgEnd(s, ok) ==
+    IF ok THEN [Cur EXCEPT !.roots = HkRoots(roots, s), !.records = HkRecords(records \cup {s}, s)]
     ELSE Cur
+
+DSubEnd(e) == [Cur EXCEPT !.subs = subs \cup {e}]
 
 DSyncAgg(s) == [Cur EXCEPT !.roots = roots \ {s}]
 
-DAuction(s) == [Cur EXCEPT !.bids = HkBids(bids \cup {s}, s)]
+DAuction(s) == [Cur EXCEPT !.bids = HkBids(bids, s)]
 
 -----------------------------------------------------------------------------
 (* Closed system for TLC: the environment's choices and a timely scheduler.                         *)
@@ -322,6 +424,15 @@ DAuction(s) == [Cur EXCEPT !.bids = HkBids(bids \cup {s}, s)]
 (* Jobs have duration: a job may still run when the next slot begins (it ends in that slot); head   *)
 (* events (with and without refresh), late reschedules, the next job's start, sync committee steps, *)
 (* probes and the clock interleave with running jobs.                                               *)
+(* Calls complete OUT OF ORDER: when a sync committee message job / an auction / the subscription   *)
+(* of a Prepare step / an attestation job starts, the environment fixes how many slots later the    *)
+(* node (the relays) will answer (k from MsgLates / AucLates / SubLates / AttLates; msgdue, aucdue, *)
+(* subdue, attdue = [s, at]: call of slot s answered in slot at) - within that slot the answer may  *)
+(* come before or after anything else, e.g. after the next slot's request has been answered (two    *)
+(* neighbouring slots in reverse order), or epochs late, after many later slots were served.  At    *)
+(* most MaxHeld calls of a kind are kept back beyond their slot at a time.  aggdue = slots whose    *)
+(* message has been made and whose aggregation job is due; rmark / bmark / smark = the carried      *)
+(* low-water marks of the "sweep" housekeeping.                                                     *)
 
 IsAgg(s) == aggmode = "always" \/ (aggmode = "third" /\ s % 3 = 0)
 
@@ -330,13 +441,24 @@ HasSync == env.fam \in {"sync", "all"}
 Duties(e) == IF HasAtt THEN {{First(e) + o : o \in m} : m \in Menu} ELSE {{}}
 
 Env0 == [ticked |-> -1, did |-> {}, headE |-> FALSE, attE |-> FALSE, okE |-> FALSE, hgap |-> 0, fgap |-> 0,
-         fam |-> "all", okrun |-> {}, refr |-> {}, mood |-> "reorg", reorgs |-> 0]
+         fam |-> "all", okrun |-> {}, refr |-> {}, mood |-> "reorg", reorgs |-> 0,
+         msgdue |-> {}, aucdue |-> {}, subdue |-> {}, attdue |-> {}, aggdue |-> {},
+         rmark |-> 0, bmark |-> 0, smark |-> 0]
+
+Due(s, k) == [s |-> s, at |-> s + k]
+DueNow(D) == {r \in D : r.at = now}
+\* may a call that starts now be kept back for k slots?  (D = the calls of its kind that are kept back)
+MayHold(D, k, lates) ==
+    /\ k \in lates
+    /\ now + k <= MaxSlot
+    /\ k > 0 => Cardinality({r \in D : r.at > now}) < MaxHeld
 
 Init ==
     /\ now \in StartSlots
     /\ up = FALSE
     /\ attjobs = {} /\ prepjobs = {} /\ running = {} /\ pend = {} /\ attested = {} /\ subs = {}
     /\ roots = {} /\ records = {} /\ bids = {} /\ njobs = 0
+    /\ msgrun = {} /\ aucrun = {} /\ subrun = {}
     /\ env \in {[Env0 EXCEPT !.fam = f] : f \in Fams}
     /\ IF HasSync THEN verify \in BOOLEAN /\ aggmode \in {"never", "third", "always"}
        ELSE verify = FALSE /\ aggmode = "never"
@@ -349,7 +471,7 @@ NStart(d0, d1) ==
     /\ env.fam # "bids"
     /\ d0 \in Duties(Epoch(now)) /\ d1 \in Duties(Epoch(now) + 1)
     /\ Start({Epoch(now), Epoch(now) + 1}, DStart(DutyMap(d0, d1)))
-    /\ env' = [env EXCEPT !.ticked = Epoch(now)]
+    /\ env' = [env EXCEPT !.ticked = Epoch(now), !.smark = Epoch(now)]
 
 NTick ==
     /\ up /\ now = First(Epoch(now)) /\ env.ticked < Epoch(now)
@@ -358,11 +480,20 @@ NTick ==
 
 PrepDue == (Epoch(now) + 1) \in prepjobs /\ now >= First(Epoch(now)) + (P \div 2)
 
-NPrepare(d) ==
+\* k = the node completes the beacon committee subscription of the epoch k slots later (0: within the step)
+NPrepare(d, k) ==
     /\ up /\ PrepDue
     /\ d \in Duties(Epoch(now) + 1)
-    /\ Prepare(Epoch(now) + 1, TRUE, {Epoch(now) + 1}, DPrepare(Epoch(now) + 1, d))
-    /\ UNCHANGED env
+    /\ MayHold(env.subdue, k, IF HasAtt THEN SubLates ELSE {0})
+    /\ (Epoch(now) + 1) \notin subrun
+    /\ Prepare(Epoch(now) + 1, TRUE, {Epoch(now) + 1}, IF k > 0 THEN {Epoch(now) + 1} ELSE {},
+               DPrepare(Epoch(now) + 1, d, k > 0))
+    /\ env' = [env EXCEPT !.subdue = IF k > 0 THEN @ \cup {[s |-> Epoch(now) + 1, at |-> now + k]} ELSE @]
+
+NSubEnd(r) ==
+    /\ up /\ r \in DueNow(env.subdue)
+    /\ SubEnd(r.s, DSubEnd(r.s))
+    /\ env' = [env EXCEPT !.subdue = @ \ {r}]
 
 \* F = epochs whose duties the head event makes the controller refresh (their dependent root changed);
 \* d0 / d1 = the new duties of the current / next epoch (empty when not refreshed)
@@ -372,6 +503,7 @@ NHead(F, d0, d1, split) ==
     /\ F \in SUBSET {Epoch(now), Epoch(now) + 1}
     /\ F # {} => (env.mood = "reorg" /\ env.reorgs < MaxReorgs)
     /\ split \in BOOLEAN /\ (split => (F # {} /\ HasAtt))
+    /\ ~HasAtt => F = {}                         \* no duties, nothing to refresh
     /\ \A r \in env.refr : r.e \notin F
     \* the next epoch is refreshed only when it has been prepared (this epoch's tick has set up its prepare job
     \* and that job has run), and - as the code notices a change of the current dependent root only on a head
@@ -381,6 +513,7 @@ NHead(F, d0, d1, split) ==
     /\ (Epoch(now) \notin F => d0 = {}) /\ ((Epoch(now) + 1) \notin F => d1 = {})   \* canonical
     /\ HeadEvent(F, DHead(F, DutyMap(d0, d1), split))
     /\ env' = [env EXCEPT !.did = @ \cup {"head"}, !.headE = TRUE, !.reorgs = IF F = {} THEN @ ELSE @ + 1,
+                          !.smark = IF @ + 1 < Epoch(now) THEN Epoch(now) - 1 ELSE @,
                           !.refr = IF split
                                      THEN @ \cup {[e |-> e, cur |-> (e = Epoch(now) /\ now \in attjobs),
                                                    d |-> DutyMap(d0, d1)[e]] : e \in F}
@@ -391,17 +524,26 @@ NResched(r) ==
     /\ Resched({r.e}, DResched(r))
     /\ env' = [env EXCEPT !.refr = @ \ {r}]
 
-NAttStart(ok) ==
+\* k = 0: the job ends in its slot or (within its epoch) in the next; k > 0: the node keeps the attestation
+\* data request back, the job ends k slots later - also in a later epoch; its success then comes too late to
+\* count for its epoch (Env_OutageBounded is about epochs in which no attestation succeeded in time)
+NAttStart(ok, k) ==
     /\ up /\ now \in attjobs
     /\ AttStart(now, DAttStart(now))
     /\ ok \in BOOLEAN
-    /\ ~ok => (env.okE \/ env.fgap < G)          \* Env_OutageBounded
-    /\ env' = [env EXCEPT !.okrun = IF ok THEN @ \cup {now} ELSE @, !.attE = TRUE]
+    /\ MayHold(env.attdue, k, AttLates)
+    /\ (~ok \/ k > 0) => (env.okE \/ env.fgap < G)          \* Env_OutageBounded
+    /\ env' = [env EXCEPT !.okrun = IF ok THEN @ \cup {now} ELSE @, !.attE = TRUE,
+                          !.attdue = IF k > 0 THEN @ \cup {Due(now, k)} ELSE @]
+
+AttHeld == {r.s : r \in env.attdue}
 
 NAttEnd(s) ==
     /\ up /\ s \in running
+    /\ s \in AttHeld => \E r \in DueNow(env.attdue) : r.s = s
     /\ AttEnd(s, DAttEnd(s, s \in env.okrun))
-    /\ env' = [env EXCEPT !.okE = @ \/ (s \in env.okrun), !.okrun = @ \ {s}]
+    /\ env' = [env EXCEPT !.okE = @ \/ (s \in env.okrun /\ s \notin AttHeld), !.okrun = @ \ {s},
+                          !.attdue = {r \in @ : r.s # s}]
 
 \* a shutdown is requested while an attestation is in flight
 NProbe ==
@@ -409,32 +551,49 @@ NProbe ==
     /\ Probe(Cur)
     /\ UNCHANGED env
 
-NSyncMsg(ok) ==
+\* the sync committee message job of the slot starts; the node will answer its head root request k slots later
+NMsgStart(k) ==
     /\ up /\ HasSync /\ "msg" \notin env.did
+    /\ MayHold(env.msgdue, k, MsgLates)
+    /\ MsgStart(now, Cur)
+    /\ env' = [env EXCEPT !.did = @ \cup {"msg"}, !.msgdue = @ \cup {Due(now, k)}]
+
+\* the node answers the head root request of slot r.s (r.s < now: late, after the requests of later slots)
+NMsgEnd(r, ok) ==
+    /\ up /\ r \in DueNow(env.msgdue)
     /\ ok \in BOOLEAN
     /\ ~ok => env.mood = "quiet"                  \* the node fails to give its head root during an outage only
-    /\ SyncMsg(now, TRUE, DSyncMsg(now, ok))
-    /\ env' = [env EXCEPT !.did = @ \cup (IF ok THEN {"msg", "msgok"} ELSE {"msg"})]
+    /\ MsgEnd(r.s, DMsgEnd(r.s, ok))
+    /\ env' = [env EXCEPT !.msgdue = @ \ {r},
+                          !.aggdue = IF ok /\ IsAgg(r.s) THEN @ \cup {r.s} ELSE @,
+                          !.rmark = IF ok THEN SweepMark(roots, @, r.s, RootKeep) ELSE @]
 
-NSyncAgg ==
-    /\ up /\ "msgok" \in env.did /\ "agg" \notin env.did /\ IsAgg(now)
-    /\ SyncAgg(now, DSyncAgg(now))
-    /\ Did("agg")
+\* the aggregation job of slot s is set up when Message(s) has returned; it runs at once when that was late
+NSyncAgg(s) ==
+    /\ up /\ s \in env.aggdue
+    /\ SyncAgg(s, DSyncAgg(s))
+    /\ env' = [env EXCEPT !.aggdue = @ \ {s}]
 
 \* the timely scheduler has started everything that is due in this slot; an attestation started in this
 \* slot may still be running (it ends in the next slot, and within its epoch), one started earlier has
 \* ended; the node has answered
 SlotDone ==
     /\ now \notin attjobs /\ env.refr = {}
-    /\ running \subseteq (IF Epoch(now + 1) = Epoch(now) THEN {now} ELSE {})
+    /\ (running \ AttHeld) \subseteq (IF Epoch(now + 1) = Epoch(now) THEN {now} ELSE {})
     /\ ~PrepDue
     /\ HasSync => "msg" \in env.did
-    /\ ("msgok" \in env.did /\ IsAgg(now)) => "agg" \in env.did
+    /\ env.aggdue = {}
+    \* every answer that is due in this slot has been given
+    /\ DueNow(env.msgdue) = {} /\ DueNow(env.aucdue) = {} /\ DueNow(env.subdue) = {} /\ DueNow(env.attdue) = {}
     /\ (now = First(Epoch(now))) => env.ticked = Epoch(now)
+
+\* nothing is under way (the end of a generated behaviour)
+AtRest == running = {} /\ msgrun = {} /\ aucrun = {} /\ subrun = {}
 
 NAdvance ==
     /\ now < MaxSlot
     /\ env.fam # "bids" => (up /\ SlotDone)
+    /\ env.fam = "bids" => DueNow(env.aucdue) = {}
     /\ Advance(Cur)
     /\ IF Epoch(now + 1) = Epoch(now)
          THEN env' = [env EXCEPT !.did = {}]
@@ -447,25 +606,36 @@ NAdvance ==
                                     !.hgap = hg, !.mood = m, !.reorgs = 0,
                                     !.fgap = IF env.attE /\ ~env.okE THEN @ + 1 ELSE IF env.okE THEN 0 ELSE @]
 
-NAuction ==
+NAucStart(k) ==
     /\ env.fam = "bids" /\ "auction" \notin env.did
-    /\ Auction(now, DAuction(now))
-    /\ Did("auction")
+    /\ MayHold(env.aucdue, k, AucLates)
+    /\ AucStart(now, Cur)
+    /\ env' = [env EXCEPT !.did = @ \cup {"auction"}, !.aucdue = @ \cup {Due(now, k)}]
+
+NAucEnd(r) ==
+    /\ env.fam = "bids" /\ r \in DueNow(env.aucdue)
+    /\ AucEnd(r.s, DAuction(r.s))
+    /\ env' = [env EXCEPT !.aucdue = @ \ {r}, !.bmark = SweepMark(bids, @, r.s, BidKeep)]
 
 AllDuties == {{First(e) + o : o \in m} : m \in Menu, e \in {Epoch(now), Epoch(now) + 1}} \cup {{}}
 
 Next ==
     \/ \E d0, d1 \in AllDuties : NStart(d0, d1)
     \/ NTick
-    \/ \E d \in AllDuties : NPrepare(d)
+    \/ \E d \in AllDuties : \E k \in SubLates : NPrepare(d, k)
+    \/ \E r \in env.subdue : NSubEnd(r)
     \/ \E F \in SUBSET {Epoch(now), Epoch(now) + 1} : \E d0, d1 \in AllDuties : \E split \in BOOLEAN :
          NHead(F, d0, d1, split)
     \/ \E r \in env.refr : NResched(r)
-    \/ \E ok \in BOOLEAN : NAttStart(ok)
+    \/ \E ok \in BOOLEAN : \E k \in AttLates : NAttStart(ok, k)
     \/ \E s \in running : NAttEnd(s)
     \/ NProbe
-    \/ \E ok \in BOOLEAN : NSyncMsg(ok)
-    \/ NSyncAgg \/ NAdvance \/ NAuction
+    \/ \E k \in MsgLates : NMsgStart(k)
+    \/ \E r \in env.msgdue : \E ok \in BOOLEAN : NMsgEnd(r, ok)
+    \/ \E s \in env.aggdue : NSyncAgg(s)
+    \/ NAdvance
+    \/ \E k \in AucLates : NAucStart(k)
+    \/ \E r \in env.aucdue : NAucEnd(r)
 
 Spec == Init /\ [][Next]_vars
 
@@ -476,4 +646,13 @@ Spec == Init /\ [][Next]_vars
 NeverRefreshOverRunning == ~(\E r \in env.refr : \E s \in running : Epoch(s) = r.e /\ s \notin attjobs)
 NeverReschedOverRunning == ~(\E r \in env.refr : \E s \in running : s \in r.d)
 NeverTwoRunning == Cardinality(running) < 2
+\* out-of-order completion: a head root has been noted for a slot that lies more than an epoch below one noted
+\* earlier (the request of the old slot was answered after the on-time request of this slot: now \in roots
+\* means SetBeaconBlockRoot(now) has pruned everything older than its window before the old one arrived);
+\* likewise a bid, and a subscription info for an epoch older than the previous one
+NeverLateRoot == ~(\E s \in roots : s + P < now /\ now \in roots)
+NeverLateBid == ~(\E s \in bids : s + BidKeep < now /\ now \in bids)
+NeverLateSub == ~(\E e \in subs : e + 1 < Epoch(now) /\ env.headE /\ "head" \in env.did)
+\* two calls of neighbouring slots under way at once (either may be answered first)
+NeverTwoMessages == Cardinality(msgrun) < 2
 =============================================================================
